@@ -138,6 +138,24 @@ func genC04(r *rng, n int) {
 				subT = typeAt(root, p)
 				if r.chance(35) {
 					kind = 2
+				} else if subT != nil && r.chance(15) {
+					// a node of a DIFFERENT type (same byte width where there is one): must be an error, value unchanged
+					switch subT.K {
+					case thrift.I64:
+						subT = &Ty{K: thrift.DOUBLE}
+					case thrift.DOUBLE:
+						subT = &Ty{K: thrift.I64}
+					case thrift.BOOL:
+						subT = &Ty{K: thrift.I08}
+					case thrift.I08:
+						subT = &Ty{K: thrift.BOOL}
+					case thrift.LIST:
+						subT = &Ty{K: thrift.SET, Elem: subT.Elem}
+					case thrift.SET:
+						subT = &Ty{K: thrift.LIST, Elem: subT.Elem}
+					default:
+						subT = &Ty{K: thrift.I16}
+					}
 				}
 			case cls < 8: // insert an absent child into the container at base
 				ct := typeAt(root, base)
@@ -176,7 +194,7 @@ func genC04(r *rng, n int) {
 				}
 				bad := g.badStep(cv)
 				if bad.Kind == 2 && bad.N < 0 {
-					bad.N = 0
+					bad.N = -1
 				}
 				// a step that FITS the parent's kind may be a valid insertion point for the (wrongly typed) I32 sub value,
 				// which is outside the API contract for set: such steps are only used for unset
@@ -195,10 +213,24 @@ func genC04(r *rng, n int) {
 			sub := g.genValue(subT, 2)
 			sb := sub.encode(nil)
 			gp := toPath(p)
+			if debugErr {
+				println("C04 op:", kind, typed, fmt.Sprint(gp), hex.EncodeToString(node.Raw()), hex.EncodeToString(value.Raw()))
+			}
 			var exist bool
 			var e error
 			var res []byte
 			flags := 1
+			byName := 0
+			pEmit := p
+			if typed && r.chance(40) {
+				if np, changed := nameSteps(root, p, r); changed {
+					gp = toPath(np)
+					pEmit = np
+					if len(np) >= 3 && np[len(np)-1].Kind == 6 {
+						byName = 4 // last step addressed by NAME below depth 2 (GetDescByPath is consulted)
+					}
+				}
+			}
 			if typed {
 				kind += 2
 				fork := value.Fork()
@@ -212,13 +244,25 @@ func genC04(r *rng, n int) {
 				})
 				if !ok {
 					ops = append(ops, fi(kind))
-					ops = append(ops, pathFields(p)...)
-					ops = append(ops, fi(int(subT.K)), fx(sb), "n3", "n0", fx(nil), fi(1|declBit(root, p)))
+					ops = append(ops, pathFields(pEmit)...)
+					ops = append(ops, fi(int(subT.K)), fx(sb), "n3", "n0", fx(value.Raw()), fi(1|declBit(root, p)|byName))
 					done++
 					break
 				}
 				res = value.Raw()
 				if !bytes.Equal(before, fork.Raw()) {
+					flags = 0
+				}
+				// the other direction: an edit of a fork must not change the origin
+				f2 := value.Fork()
+				noPanic(func() {
+					if kind == 3 {
+						f2.UnsetByPath(gp...)
+					} else {
+						f2.SetByPath(generic.Value{Node: generic.NewNode(subT.K, append([]byte(nil), sb...)), Desc: descFor(desc, p)}, gp...)
+					}
+				})
+				if !bytes.Equal(res, value.Raw()) {
 					flags = 0
 				}
 			} else {
@@ -234,12 +278,23 @@ func genC04(r *rng, n int) {
 				if !ok {
 					ops = append(ops, fi(kind))
 					ops = append(ops, pathFields(p)...)
-					ops = append(ops, fi(int(subT.K)), fx(sb), "n3", "n0", fx(nil), fi(1|declBit(root, p)))
+					ops = append(ops, fi(int(subT.K)), fx(sb), "n3", "n0", fx(node.Raw()), fi(1|declBit(root, p)))
 					done++
 					break
 				}
 				res = node.Raw()
 				if !bytes.Equal(before, fork.Raw()) {
+					flags = 0
+				}
+				f2 := node.Fork()
+				noPanic(func() {
+					if kind == 1 {
+						f2.UnsetByPath(gp...)
+					} else {
+						f2.SetByPath(generic.NewNode(subT.K, append([]byte(nil), sb...)), gp...)
+					}
+				})
+				if !bytes.Equal(res, node.Raw()) {
 					flags = 0
 				}
 			}
@@ -251,13 +306,17 @@ func genC04(r *rng, n int) {
 				}
 			}
 			ops = append(ops, fi(kind))
-			ops = append(ops, pathFields(p)...)
-			ops = append(ops, fi(int(subT.K)), fx(sb), fi(ei), fb(exist), fx(res), fi(flags|declBit(root, p)))
+			ops = append(ops, pathFields(pEmit)...)
+			ops = append(ops, fi(int(subT.K)), fx(sb), fi(ei), fb(exist), fx(res), fi(flags|declBit(root, p)|byName))
 			done++
+			if (kind == 2 || kind == 4) && len(p) > 0 && p[len(p)-1].Kind == 2 && p[len(p)-1].N < 0 {
+				break // unset with a negative index: finding 405 may have corrupted the value
+			}
 		}
 		fields = append(fields, fi(done))
 		fields = append(fields, ops...)
 		out.emit(401, fields...)
+		genC04Many(r, g, root, val, buf, paths)
 	}
 }
 
